@@ -298,12 +298,15 @@ def main():
     CUR_PID = a.property
     spec = props[a.property]
     units = spec["units"]  # {unit: [fn filter] or "*"}
-    with cf.ThreadPoolExecutor(max_workers=min(8, len(units))) as ex:
-        results = list(ex.map(analyse_unit, list(units)))
     extra = []
-    if a.tier == "thorough" or spec.get("extra"):
-        import extra_checks
-        extra = extra_checks.run(a.property, spec, a.tier)
+    with cf.ThreadPoolExecutor(max_workers=min(8, len(units)) + 1) as ex:
+        fut_extra = None
+        if a.tier == "thorough" or spec.get("extra"):
+            import extra_checks
+            fut_extra = ex.submit(extra_checks.run, a.property, spec, a.tier)
+        results = list(ex.map(analyse_unit, list(units)))
+        if fut_extra is not None:
+            extra = fut_extra.result()
     return report(a.property, spec, a.tier, results, extra, t0)
 
 
@@ -410,6 +413,7 @@ def report(pid, spec, tier, results, extra, t0):
             "canaries": {"must_fail": can_exp, "failed_as_required": can_ok},
             "unverified_anchors": spec.get("unverified_anchors", []),
             "extraction_drops": spec.get("extraction_drops", DROPS),
+            "bounded_standins": [b for e in extra for b in e.get("bounded_standins", [])],
             "known_findings": [k["line"] for _, k in known_hits],
             "undecided": undecided,
             "failed_obligations": [f["obligation"] for f, _ in new_fail],
@@ -427,7 +431,7 @@ def report(pid, spec, tier, results, extra, t0):
         for i, (f, _) in enumerate(new_fail):
             h = hashlib.sha1(f["obligation"].encode()).hexdigest()[:10]
             rp = os.path.join(rdir, f"{h}.json")
-            wit = find_witness(pid, f)
+            wit = f.get("witness") or find_witness(pid, f)
             rec = {"property": pid, "failed_obligation": f["obligation"], "function": f["item"],
                    "source": f"{f['file']}:{f['line']}", "source_text": f["source_text"], "kind": f["kind"],
                    "clause": f["clause"], "verifier": "verus 0.2026.09.13 / z3",
